@@ -156,6 +156,16 @@ def run(ctx):
     for fn, expr, which, pname in sites:
         for nm, val in (("REQUIRED", REQ), ("OPTIONAL", OPT), ("REPEATED", REP)):
             got = _eval_member(P, fn, expr, "repetition_type", val)
+            if got is None:
+                # not a closed expression over the member (a cached local, an unsigned range test): execute
+                # the accessor on a node whose repetition_type is `val`
+                try:
+                    eo_ = sem.field_offsets(P, "parquet_schema_element")
+                    r_, _, _ = sem.run(P, fn, [sem.Ptr("node", 0, 1)], heap0={("node", eo_["repetition_type"]): val},
+                                       single=True)
+                    got = r_ if isinstance(r_, int) else None
+                except (sem.Inconclusive, KeyError, AnalysisBroken):
+                    got = None
             want = WANT[val][0 if which == "def" else 1]
             key = "sibling-level|%s:%s|%s|%s" % (P.rel(fn.file), fn.name, which, nm)
             if got is None:
